@@ -48,6 +48,19 @@ Theorem C15_failed_save_changes_nothing :
   save v s nm id oldv data create del typ meta now = (e, r, s', evs) -> e <> EOk -> s' = s /\ evs = [].
 Proof. exact save_fail. Qed.
 
+(* the same under faults: a request during which the binlog refuses the append (the transaction body succeeded, the
+   event could not be logged) changes no table and logs nothing, so the version it named is still current and a retry
+   from it can succeed; it returns the failure exactly when the request would otherwise have been committed *)
+Theorem C15_failed_append_changes_nothing :
+  forall v c s f, tables (step_st v c s (OFailAppend f)) = tables s /\ step_evs v c s (OFailAppend f) = [].
+Proof. exact failed_append_changes_nothing. Qed.
+
+Theorem C15_failed_append_reported :
+  forall v c s p l id oldv data create del typ meta now,
+  step_res v c s (OFailAppend (FSave p l id oldv data create del typ meta now)) = RFail <->
+  fst (fst (fst (save v s (p, l) id oldv data create del typ meta now))) = EOk.
+Proof. exact failed_append_save_result. Qed.
+
 Theorem C15_racing_edits_one_wins :
   forall v s nm id oldv data create del typ meta now r s' evs,
   wf s -> save v s nm id oldv data create del typ meta now = (EOk, r, s', evs) -> r_id r = id ->
@@ -144,4 +157,12 @@ Example C15_nonvacuous_longpoll :
               JPoll 0 1000; JEdit (OSave 0 3 0 0 0 true 0 0 0 62); JPoll 1 1000; JPoll 1 1000; JBroadcast;
               JEdit (OSave 0 4 0 0 0 true 0 0 0 63); JBroadcast] in
   map cl_stream (snd (snd (jrun faithful ex_cfg (empty, [new_client 2; new_client 2]) ops))) = [[3]; [3; 4]].
+Proof. vm_compute. reflexivity. Qed.
+
+(* non-vacuity of the fault theorems: an edit refused by the binlog, then the same edit retried, then its racing twin *)
+Example C15_nonvacuous_failed_append :
+  map obs_like (results faithful ex_cfg empty
+    [OSave 0 7 0 0 1 true 0 T_METRIC 0 100; OFailAppend (FSave 0 7 1 1 2 false 0 T_METRIC 0 101);
+     OSave 0 7 1 1 2 false 0 T_METRIC 0 102; OSave 0 7 1 1 3 false 0 T_METRIC 0 103])
+  = [(0, 1, 1); (2, 0, 0); (0, 1, 2); (1, 0, 0)].
 Proof. vm_compute. reflexivity. Qed.
